@@ -41,6 +41,13 @@ pub fn run_spec(prop: Prop, spec: &RunSpec, want_transcript: bool) -> RunOutcome
             ElemClass::Zst => crate::c07::run_c07::<(), ()>(spec, seed),
         };
     }
+    if prop == Prop::C10 {
+        return match spec.cfg.elem {
+            ElemClass::Plain => crate::c10::run_c10::<u32, PVal>(spec, crate::THOROUGH.load(std::sync::atomic::Ordering::Relaxed)),
+            ElemClass::Tracked => crate::c10::run_c10::<TKey, TVal>(spec, crate::THOROUGH.load(std::sync::atomic::Ordering::Relaxed)),
+            ElemClass::Zst => crate::c10::run_c10::<(), ()>(spec, crate::THOROUGH.load(std::sync::atomic::Ordering::Relaxed)),
+        };
+    }
     match spec.cfg.elem {
         ElemClass::Plain => run_generic::<u32, PVal>(prop, spec, want_transcript),
         ElemClass::Tracked => run_generic::<TKey, TVal>(prop, spec, want_transcript),
